@@ -616,6 +616,8 @@ enum Spelling {
     VkBinding(u32),
     /// `: register(t3)` plus `[[rssl::bind_group(N)]]`
     AttributeAndRegister(u32),
+    /// `[[rssl::bind_group(N)]] [[vk::binding(3)]]`, or the two attributes the other way round
+    AttributeAndVkBinding(u32, bool),
 }
 
 #[derive(Clone, Debug)]
@@ -630,6 +632,8 @@ struct ResDecl {
     is_const: bool,
     bindless: bool,
     namespace: Option<String>,
+    /// the type (with the array dimension, if any) is named by a typedef in front of the declaration
+    via_typedef: bool,
 }
 
 #[derive(Clone, Debug)]
@@ -705,6 +709,9 @@ fn render_decl(d: &Decl, out: &mut String, entries: &mut Vec<Entry>) {
                     attrs = format!("[[rssl::bind_group({})]] ", g);
                     annotation = format!(" : register({}{})", reg, i);
                 }
+                (Spelling::AttributeAndVkBinding(i, _), None) => attrs = format!("[[vk::binding({})]] ", i),
+                (Spelling::AttributeAndVkBinding(i, false), Some(g)) => attrs = format!("[[rssl::bind_group({})]] [[vk::binding({})]] ", g, i),
+                (Spelling::AttributeAndVkBinding(i, true), Some(g)) => attrs = format!("[[vk::binding({})]] [[rssl::bind_group({})]] ", i, g),
             }
             if r.bindless {
                 attrs = format!("[[rssl::bindless]] {}", attrs);
@@ -717,12 +724,21 @@ fn render_decl(d: &Decl, out: &mut String, entries: &mut Vec<Entry>) {
                 out.push_str(&format!("{}cbuffer {}{} {{ float4 {}_m0; uint {}_m1; }}", attrs, name, annotation, name, name));
             } else {
                 let ty = row.2[r.type_variant % row.2.len()];
-                out.push_str(&format!("{}{}{} ", attrs, if r.is_const { "const " } else { "" }, ty));
+                // (the front end refuses register() on an array type that comes from a typedef)
+                let via_typedef = r.via_typedef && r.declarators.len() == 1 && (annotation.is_empty() || r.declarators[0].1.is_none());
+                if via_typedef {
+                    let (name, len, how) = &r.declarators[0];
+                    out.push_str(&format!("typedef {} TD_{}{}; ", ty, name, array_text(*len, *how)));
+                    out.push_str(&format!("{}{}TD_{} ", attrs, if r.is_const { "const " } else { "" }, name));
+                } else {
+                    out.push_str(&format!("{}{}{} ", attrs, if r.is_const { "const " } else { "" }, ty));
+                }
                 for (i, (name, len, how)) in r.declarators.iter().enumerate() {
                     if i > 0 {
                         out.push_str(", ");
                     }
-                    out.push_str(&format!("{}{}{}", name, array_text(*len, *how), annotation));
+                    let dims = if via_typedef { String::new() } else { array_text(*len, *how) };
+                    out.push_str(&format!("{}{}{}", name, dims, annotation));
                     if r.static_sampler {
                         out.push_str(" = StaticSampler { Filter = MIN_MAG_MIP_LINEAR; }");
                     }
@@ -803,12 +819,14 @@ fn spelling_for(choice: usize, index: u32, static_sampler: bool) -> Spelling {
     if static_sampler {
         return if choice % 2 == 0 { Spelling::Plain } else { Spelling::Attribute };
     }
-    match choice % 5 {
+    match choice % 7 {
         0 => Spelling::Plain,
         1 => Spelling::Register(index),
         2 => Spelling::Attribute,
         3 => Spelling::VkBinding(index),
-        _ => Spelling::AttributeAndRegister(index),
+        4 => Spelling::AttributeAndRegister(index),
+        5 => Spelling::AttributeAndVkBinding(index, false),
+        _ => Spelling::AttributeAndVkBinding(index, true),
     }
 }
 
@@ -842,6 +860,7 @@ fn exhaustive_case(index: u64, opts: &[(Kind, Option<u32>, Option<u32>, bool)]) 
             is_const: false,
             bindless: false,
             namespace: None,
+            via_typedef: kind != CBufferBlock && (index / 3) % 4 == 1,
         }));
     }
     // a global that is not a resource in front of / between / behind the declarations (6 cases out of 7)
@@ -871,7 +890,7 @@ fn random_case(rng: &mut Rng) -> Case {
                 group = fg;
             }
         }
-        let spelling = spelling_for(rng.below(10), rng.below(10) as u32, static_sampler);
+        let spelling = spelling_for(rng.below(14), rng.below(10) as u32, static_sampler);
         let mut declarators = Vec::new();
         let n_declarators = if kind != CBufferBlock && matches!(spelling, Spelling::Plain | Spelling::Attribute) && (group.is_none() || spelling == Spelling::Attribute) && rng.chance(1, 8) {
             2 + rng.below(2)
@@ -895,6 +914,7 @@ fn random_case(rng: &mut Rng) -> Case {
             is_const: kind != CBufferBlock && rng.chance(1, 5),
             bindless: kind != CBufferBlock && !static_sampler && any_array && rng.chance(1, 6),
             namespace: if rng.chance(1, 12) { Some(format!("NS{}", counter)) } else { None },
+            via_typedef: kind != CBufferBlock && rng.chance(1, 5),
         }));
     }
     // globals that are not resources, anywhere
